@@ -19,19 +19,31 @@ func init() { register("C03", "exploration", runC03) }
 
 var c03U = []string{"a", "a\x00", "a\x00\x00", "ab", "b", "\x00", "\xff"}
 
-// bound option i: 0 = unset, 1..7 = open(U[i-1]), 8..14 = closed(U[i-8])
+// bound option i: 0 = unset, 1..7 = open(U[i-1]), 8..14 = closed(U[i-8]), 15 = open with an empty key, 16 = closed with
+// an empty key (present on the wire but empty: means "no bound", like unset)
 func c03Bound(i int) model.Bound {
 	switch {
 	case i == 0:
 		return model.Bound{}
 	case i <= 7:
 		return model.Bound{Mode: 2, Key: c03U[i-1]}
-	default:
+	case i <= 14:
 		return model.Bound{Mode: 1, Key: c03U[i-8]}
+	case i == 15:
+		return model.Bound{Mode: 2, Key: ""}
+	default:
+		return model.Bound{Mode: 1, Key: ""}
 	}
 }
 
-func c03Range(i int) model.Range { return model.Range{Start: c03Bound(i / 15), End: c03Bound(i % 15)} }
+const (
+	c03NB = 17            // bound options
+	c03NR = c03NB * c03NB // single ranges
+)
+
+func c03Range(i int) model.Range {
+	return model.Range{Start: c03Bound(i / c03NB), End: c03Bound(i % c03NB)}
+}
 
 func rowSetString(rs model.RowSet) string {
 	if rs.Absent {
@@ -83,25 +95,60 @@ func c03ReadCheck(cl btpb.BigtableClient, t c03Table, rs model.RowSet, limit int
 	if res.Malformed != "" {
 		return "chunk stream malformed: " + res.Malformed, 0
 	}
-	want := rs.Select(t.keys)
-	if limit > 0 && int64(len(want)) > limit {
-		want = want[:limit]
-	}
 	got := keysOf(res.Rows)
-	if len(got) != len(want) {
-		return fmt.Sprintf("got keys %q want %q", got, want), 0
-	}
-	for i := range got {
-		if got[i] != want[i] {
-			return fmt.Sprintf("got keys %q want %q", got, want), 0
+	var first []string
+	for ci, want := range c03Wants(rs, t.keys) {
+		if limit > 0 && int64(len(want)) > limit {
+			want = want[:limit]
+		}
+		if ci == 0 {
+			first = want
+		}
+		if fmt.Sprintf("%q", got) == fmt.Sprintf("%q", want) {
+			return "", len(got)
 		}
 	}
-	return "", len(got)
+	return fmt.Sprintf("got keys %q want %q", got, first), 0
+}
+
+// c03Wants returns the admissible results. An END bound that is present with an empty key is not defined by the
+// statement: it may mean "no upper bound" (what the client libraries rely on for an open end) or be taken literally
+// (no key is below or equal to the empty key: the range selects nothing); either reading, per bound mode, is accepted.
+// An empty START key selects everything under both readings.
+func c03Wants(rs model.RowSet, keys []string) [][]string {
+	hasEmptyEnd := false
+	for _, r := range rs.Ranges {
+		if r.End.Mode != 0 && r.End.Key == "" {
+			hasEmptyEnd = true
+		}
+	}
+	if !hasEmptyEnd || rs.Absent {
+		return [][]string{rs.Select(keys)}
+	}
+	var out [][]string
+	for combo := 0; combo < 4; combo++ {
+		openUnbounded, closedUnbounded := combo&1 == 0, combo&2 == 0
+		alt := model.RowSet{Keys: rs.Keys}
+		for _, r := range rs.Ranges {
+			if r.End.Mode != 0 && r.End.Key == "" {
+				if (r.End.Mode == 2 && !openUnbounded) || (r.End.Mode == 1 && !closedUnbounded) {
+					continue // literal reading: selects nothing
+				}
+			}
+			alt.Ranges = append(alt.Ranges, r)
+		}
+		if len(alt.Keys) == 0 && len(alt.Ranges) == 0 {
+			out = append(out, nil) // every range selected nothing: not the same as an empty RowSet
+			continue
+		}
+		out = append(out, alt.Select(keys))
+	}
+	return out
 }
 
 func runC03(run *common.Run) {
-	run.Rule = "case = one ReadRows with one RowSet (ranges with each bound unset/open/closed over the 7-key adversarial universe, optional explicit key, rows_limit) against one table content on one engine, result compared with the set-union model and the chunk-stream state machine. Enumerated sub-space: quick = all 225 single ranges x 8 key options x 4 limits x 3 tables, plus all ordered pairs of a 60-range stratified subset; thorough = ALL 225^2 range pairs x 8 key options (exhaustive for 'two ranges plus one key'). Non-trivial = result is a non-empty strict subset of the table, or an inverted range; distinct by (rowset, limit, table, engine). Further parts: duplicate/many-range sets, multi-message streams with limits at message boundaries and row-dropping filters, row sets of up to 1500 keys and 1100 ranges over a 3000-row table, SampleRowKeys invariants."
-	run.Assumptions = []string{"an empty key inside a bound is not generated (the universe has none)", "inverted = start key > end key as raw bytes, both set"}
+	run.Rule = "case = one ReadRows with one RowSet (ranges with each bound unset/open/closed over the 7-key adversarial universe, optional explicit key, rows_limit) against one table content on one engine, result compared with the set-union model and the chunk-stream state machine. Enumerated sub-space: quick = all 289 single ranges (each bound unset / open / closed over the universe, or present with an empty key) x 8 key options x 4 limits x 3 tables, plus all ordered pairs of a 60-range stratified subset; thorough = ALL 289^2 range pairs x 8 key options (exhaustive for 'two ranges plus one key'). Non-trivial = result is a non-empty strict subset of the table, or an inverted range; distinct by (rowset, limit, table, engine). Further parts: duplicate/many-range sets, multi-message streams with limits at message boundaries and row-dropping filters, row sets of up to 1500 keys and 1100 ranges over a 3000-row table, a table of rows carrying 32 KiB - 1 MiB of values (byte thresholds crossed on the last cell of a row, mid-row and between rows), SampleRowKeys invariants."
+	run.Assumptions = []string{"an END bound that is present with an empty key is not defined by the statement: 'no upper bound' and the literal reading (selects nothing) are both accepted, per bound mode; an empty START key selects everything under either reading", "inverted = start key > end key as raw bytes, both set"}
 	j := common.NewJournal("C03")
 	for ei, engine := range drive.Engines {
 		if run.TooMany() {
@@ -161,12 +208,12 @@ func runC03(run *common.Run) {
 		// Part A1: all single ranges x key options x limits x tables
 		if run.WantSub("single") {
 			limits := []int64{0, 1, 2, 100}
-			total := 225 * 8 * len(limits) * len(tables)
+			total := c03NR * 8 * len(limits) * len(tables)
 			j.Begin(0, fmt.Sprintf("C03 single engine=%s", engine))
 			parallelW(total, nw, func(i, w int) {
 				c := i
-				ri := c % 225
-				c /= 225
+				ri := c % c03NR
+				c /= c03NR
 				ko := c % 8
 				c /= 8
 				li := c % len(limits)
@@ -182,12 +229,12 @@ func runC03(run *common.Run) {
 		if run.WantSub("pair") {
 			var subset []int
 			if run.IsThorough() {
-				for i := 0; i < 225; i++ {
+				for i := 0; i < c03NR; i++ {
 					subset = append(subset, i)
 				}
 			} else {
 				r := run.Rand("C03.subset", 0)
-				perm := make([]int, 225)
+				perm := make([]int, c03NR)
 				for i := range perm {
 					perm[i] = i
 				}
@@ -219,7 +266,7 @@ func runC03(run *common.Run) {
 			})
 			run.Count("range_pair_reads", int64(total))
 			if run.IsThorough() && run.Replay == nil {
-				run.Set("exhaustive_subspace", "all 225^2 ordered range pairs x 8 key options on the full-universe table, each engine")
+				run.Set("exhaustive_subspace", "all 289^2 ordered range pairs x 8 key options on the full-universe table, each engine")
 				run.Exhaustive = true
 			}
 		}
@@ -237,7 +284,7 @@ func runC03(run *common.Run) {
 				default:
 					nr := r.Range(0, 8)
 					for k := 0; k < nr; k++ {
-						rg := c03Range(r.Intn(225))
+						rg := c03Range(r.Intn(c03NR))
 						if !(model.RowSet{Ranges: []model.Range{rg}}).Inverted() || r.Chance(1, 20) {
 							rs.Ranges = append(rs.Ranges, rg)
 						}
@@ -261,6 +308,12 @@ func runC03(run *common.Run) {
 		if run.WantSub("stream") && !run.TooMany() {
 			j.Begin(0, fmt.Sprintf("C03 stream engine=%s", engine))
 			c03Streams(run, srv, engine, ei)
+		}
+		// Part C2: heavy rows (values of 32 KiB ... 1 MiB): a server that bounds its responses by bytes splits rows
+		// across messages; the stream must stay well formed and complete
+		if run.WantSub("heavy") && !run.TooMany() {
+			j.Begin(0, fmt.Sprintf("C03 heavy engine=%s", engine))
+			c03Heavy(run, srv, engine, ei)
 		}
 		// Part D: SampleRowKeys
 		if run.WantSub("sample") && !run.TooMany() {
@@ -484,6 +537,67 @@ func c03Streams(run *common.Run, srv *drive.Srv, engine string, ei int) {
 			run.Sample(fmt.Sprintf("%s -> %d rows in %d messages", desc, len(res.Rows), res.Messages))
 		}
 	}
+}
+
+// c03Heavy: a table whose rows carry 32 KiB ... 1 MiB of cell values in 1-4 cells, so that byte thresholds are
+// crossed on the last cell of a row, in the middle of a row and between rows; scans with row sets and limits.
+func c03Heavy(run *common.Run, srv *drive.Srv, engine string, ei int) {
+	name := drive.MustTable(srv.Admin, "heavy", "f")
+	type rowSpec struct{ cells, size int }
+	var specs []rowSpec
+	for i := 0; i < 18; i++ {
+		specs = append(specs, rowSpec{1, 64 << 10}) // the 16th crosses 1 MiB on its only cell
+	}
+	for i := 0; i < 4; i++ {
+		specs = append(specs, rowSpec{1, 600 << 10})
+	}
+	specs = append(specs, rowSpec{1, 1 << 20}, rowSpec{2, 512 << 10}, rowSpec{1, 1<<20 + 1}, rowSpec{3, 400 << 10})
+	for i := 0; i < 10; i++ {
+		specs = append(specs, rowSpec{4, 32 << 10}) // the 8th crosses 1 MiB on its last cell
+	}
+	var keys []string
+	var total int64
+	for i, sp := range specs {
+		key := fmt.Sprintf("h%03d", i)
+		keys = append(keys, key)
+		var muts []model.Mut
+		for c := 0; c < sp.cells; c++ {
+			muts = append(muts, model.Mut{Kind: model.SetCell, Fam: "f", Qual: fmt.Sprint("q", c), TS: 1000, Val: strings.Repeat(string(rune('a'+c)), sp.size)})
+			total += int64(sp.size)
+		}
+		if st := drive.MutateRow(srv.Data, name, key, muts); !st.OK() {
+			run.Violation("heavy", ei, "set-up write failed: "+st.String(), nil)
+			return
+		}
+	}
+	t := c03Table{name, keys}
+	_, cl, _, _ := srv.NewConn()
+	n := len(keys)
+	var sets []model.RowSet
+	sets = append(sets, model.RowSet{Absent: true})
+	for _, b := range [][2]int{{0, 17}, {10, 20}, {15, 16}, {18, 26}, {22, 23}, {26, n - 1}, {30, 34}} {
+		sets = append(sets, model.RowSet{Ranges: []model.Range{{Start: model.Bound{Mode: 1, Key: keys[b[0]]}, End: model.Bound{Mode: 1, Key: keys[b[1]]}}}})
+		sets = append(sets, model.RowSet{Keys: []string{keys[b[1]], keys[b[0]]}, Ranges: []model.Range{{Start: model.Bound{Mode: 2, Key: keys[b[0]]}, End: model.Bound{Mode: 2, Key: keys[b[1]]}}}})
+	}
+	for i := 0; i < n; i++ {
+		sets = append(sets, model.RowSet{Keys: []string{keys[i]}})
+	}
+	for si, rs := range sets {
+		for _, limit := range []int64{0, 1, 16, 17} {
+			idx := (ei*1000+si)*100 + int(limit)
+			if !run.Want("heavy", idx) || run.TooMany() || (limit > 0 && len(rs.Keys) == 1 && len(rs.Ranges) == 0) {
+				continue
+			}
+			msg, got := c03ReadCheck(cl, t, rs, limit)
+			desc := fmt.Sprintf("engine=%s heavy table rowset=%s limit=%d", engine, rowSetString(rs), limit)
+			if msg != "" {
+				run.Violation("heavy", idx, msg+" | "+desc, map[string]any{"engine": engine, "rowset": rowSetString(rs), "limit": limit})
+			}
+			run.Case(common.Hash64(desc), got > 0)
+			run.Count("heavy_scans", 1)
+		}
+	}
+	run.Count("heavy_table_bytes", total)
 }
 
 func head(s []string) string {
